@@ -13,6 +13,12 @@ MUTATORS = {"append", "extend", "add", "update", "clear", "pop", "insert", "remo
 PYVAL = TRec("PyVal", [("kind", Int), ("s", Str), ("i", Int), ("b", Bool), ("f", TAbs("Float"))])
 K_NONE, K_STR, K_INT, K_BOOL, K_FLOAT, K_OTHER = 0, 1, 2, 3, 4, 5
 _REC_DEFINED = set()
+
+
+def ops_CLOSURES():
+    from . import ops
+    return ops.CLOSURES
+
 F_float_str = z3.Function("str_of_float", TAbs("Float").z3(), z3.StringSort())
 
 
@@ -124,6 +130,11 @@ class CallMixin:
     def call_function(self, f, args, kw, st, cx, node=None):
         if isinstance(f, VType):
             return self.construct(f, args, kw, st, cx, node)
+        if isinstance(f, VFuncRef):
+            k = z3.simplify(f.t)
+            if z3.is_int_value(k) and 1 <= k.as_long() <= len(ops_CLOSURES()):
+                return self.call_function(ops_CLOSURES()[k.as_long() - 1], args, kw, st, cx, node)
+            raise Unsupported("call of a closure that is not known concretely (needs a client lemma)")
         if not isinstance(f, VFunc):
             if isinstance(f, VRef):
                 outs = []
@@ -137,6 +148,8 @@ class CallMixin:
             return self.call_builtin(f, args, kw, st, cx, node)
         if f.kind == "lambda":
             return self.call_lambda(f, args, kw, st, cx)
+        if f.kind == "closure":
+            return self.call_closure(f, args, kw, st, cx)
         if f.kind == "spec":
             return self.call_spec(f, args, kw, st, cx)
         if f.kind == "unint":
@@ -266,6 +279,34 @@ class CallMixin:
         for s, v in self.ev(lam.body, st, sub):
             s.env = dict(caller_env)
             outs.append((s, v))
+        for r in sub.acc:
+            r.st.env = dict(caller_env)
+            cx.acc.append(r)
+        return outs
+
+    def call_closure(self, f, args, kw, st, cx):
+        "nested def: body executed with the defining frame as closure"
+        fn = f.target
+        defcx = f.self_val
+        qn = f.qn
+        c = self.reg.contracts.get(qn)
+        if c is not None and not c.inline:
+            return self.apply_contract(c, args, kw, st, cx)
+        if cx.depth > MAX_INLINE_DEPTH:
+            raise Unsupported("inline depth exceeded at %s" % qn)
+        env, err = self.bind_params(fn, args, kw, st, cx, defcx.mod, qn)
+        if err is not None:
+            self.raise_(cx, st, err[0])
+            return []
+        caller_env = st.env
+        st = st.copy()
+        st.env = env
+        sub = Cx(defcx.mod, cls=defcx.cls, fn=qn, spec=cx.spec, pre=cx.pre, contract=self.reg.contracts.get(qn), closure=f.env,
+                 depth=cx.depth + 1, acc=[], self_val=defcx.self_val, fn_node=fn)
+        outs = []
+        for s, oc in self.exec_block(fn.body, st, sub):
+            s.env = dict(caller_env)
+            outs.append((s, oc[1] if oc[0] == "return" else VNone()))
         for r in sub.acc:
             r.st.env = dict(caller_env)
             cx.acc.append(r)
